@@ -35,7 +35,9 @@ LEAN_MODULES = ["Properties.C15Faults"]
 THEOREMS = [NS + t for t in [
     "v2c_C15_failed_call_restores", "v2c_C15_fault_inside_throws", "v2c_C15_call_under_faults",
     "v2c_C15_after_faults_inv", "v2c_C15_after_faults_no_ub", "v2c_C15_after_faults_prefix_queries_no_ub",
-    "v2c_C15_without_scope_counterexample"]]
+    "v2c_C15_without_scope_counterexample",
+    "v1c_C15_failed_call_restores", "v1c_C15_fault_inside_throws", "v1c_C15_call_under_faults",
+    "v1c_C15_after_faults_inv", "v1c_C15_after_faults_no_ub", "v1c_C15_without_scope_counterexample"]]
 ASSUMPTIONS = [
     "faults: a failed call is the statement program of the call (the programs C14 proves all-or-nothing: "
     "Db/V2CratesStmts.stmts, Api/CratesV1Stmts.stmts) on the connection model of Spec/Txn.lean under a fault plan — "
@@ -59,6 +61,8 @@ TRUSTED_EXTRA = []
 FAMILIES = {
     "v2": dict(mode="c15fv2", schemas=GL.SCHEMAS_V2, create="v2.create %s mem", mktrack="v2.mktrack %s %s", obs="v2.obs",
                extra_obs=["v2.raw"]),
+    "v1": dict(mode="c15fv1", schemas=GL.SCHEMAS_V1, create="create %s mem", mktrack="v1.mktrack %s %s", obs="v1.obs 41 42 4141 58",
+               extra_obs=[]),
 }
 
 
@@ -180,24 +184,74 @@ def seen_of(status_line):
     return None
 
 
-def pass2_script(fam, schema, calls, counts, full_obs_every):
-    """tags: (kind, call index, k)"""
+class Shadow:
+    """parents of the crates the script holds, maintained from the outcomes of the recording pass (which runs
+    without faults) — used only to choose the probing calls after a failed move"""
+
+    def __init__(self):
+        self.parent = {}
+
+    def apply(self, line, outcome):
+        if not outcome.startswith("ok"):
+            return
+        t = line.split()
+        if t[0] in ("mkroot", "mkroot_after"):
+            self.parent[t[1]] = "-"
+        elif t[0] in ("mksub", "mksub_after"):
+            self.parent[t[1]] = t[2]
+        elif t[0] == "setparent" and t[1] in self.parent:
+            self.parent[t[1]] = t[2]
+        elif t[0] == "rmcrate" and t[1] in self.parent:
+            gone = {t[1]}
+            changed = True
+            while changed:
+                changed = False
+                for c, q in list(self.parent.items()):
+                    if q in gone and c not in gone:
+                        gone.add(c); changed = True
+            for c in gone:
+                self.parent.pop(c, None)
+
+    def probes(self, line):
+        """further mutating calls after a FAILED move of c under p: the reverse move (p under c) and p back to where it
+        was.  On a library that rolled the failed move back both are ordinary moves; on one that kept a part of it (the
+        parent link without the ancestor closure, a sibling list without a tail) the reverse move is where a cycle would
+        be accepted."""
+        t = line.split()
+        if t[0] == "setparent" and len(t) == 3 and t[2] != "-" and t[1] != t[2] and t[1] in self.parent and t[2] in self.parent:
+            return ["setparent %s %s" % (t[2], t[1]), "setparent %s %s" % (t[2], self.parent[t[2]])]
+        return []
+
+
+def pass2_script(fam, schema, calls, counts, outcomes):
+    """tags: (kind, call index, k, observation block id)"""
     L = prefix(fam, schema)
-    tags = [("prefix", -1, -1)] * len(L)
+    tags = [("prefix", -1, -1, -1)] * len(L)
     crates, tracks = list(CRATES0), list(TRACKS0)
+    sh = Shadow()
+    for l in L:
+        sh.apply(l, "ok")
+    bid = [0]
 
     def block(ci, k):
+        bid[0] += 1
         for l in obs_block(fam, crates, tracks):
             L.append(l)
-            tags.append(("obs", ci, k))
+            tags.append(("obs", ci, k, bid[0]))
     block(-1, -1)
-    for ci, (c, n) in enumerate(zip(calls, counts)):
+    for ci, (c, n, oc) in enumerate(zip(calls, counts, outcomes)):
         for k in range(n):
-            L.append("fault %d %d" % (k, n)); tags.append(("arm", ci, k))
-            L.append(c); tags.append(("faulted", ci, k))
-            L.append("fault.status"); tags.append(("status", ci, k))
+            L.append("fault %d %d" % (k, n)); tags.append(("arm", ci, k, bid[0]))
+            L.append(c); tags.append(("faulted", ci, k, bid[0]))
+            L.append("fault.status"); tags.append(("status", ci, k, bid[0]))
             block(ci, k)
-        L.append(c); tags.append(("call", ci, -1))
+            pr = sh.probes(c)
+            if pr:
+                for l in pr:
+                    L.append(l); tags.append(("probe", ci, k, bid[0]))
+                block(ci, k)
+        L.append(c); tags.append(("call", ci, -1, bid[0]))
+        sh.apply(c, oc)
         nc, nt = new_vars(c)
         crates += [v for v in nc if v not in crates]
         tracks += [v for v in nt if v not in tracks]
@@ -224,23 +278,21 @@ def judge(fam, runs, hist):
         last_obs = None      # observation block (impl) before the current call
         cur = []
         cur_key = None
-        blocks, order = {}, []
-        # collect observation blocks per (call, k), in order
+        blocks = {}
+        # observation blocks by id
         for l, tg, h in zip(script, tags, ho):
             if tg[0] == "obs":
-                if (tg[1], tg[2]) not in blocks:
-                    order.append((tg[1], tg[2]))
-                blocks.setdefault((tg[1], tg[2]), []).append(h)
+                blocks.setdefault(tg[3], []).append(h)
         done_div = False
         for k, (l, tg, h, m) in enumerate(zip(script, tags, ho, mo)):
             if l.startswith("#") or h == "skipped-after-crash":
                 continue
             evals += 1
-            kind, ci, pos = tg
+            kind, ci, pos, bid = tg
             if kind != "prefix":
                 seen.add((script[1], l, kind if kind != "obs" else "obs%d" % min(pos, 99)))
             c = K.cls(h)
-            if kind in ("faulted", "call"):
+            if kind in ("faulted", "call", "probe"):
                 hist["outcome_" + kind][c] = hist["outcome_" + kind].get(c, 0) + 1
             if kind == "faulted":
                 op = opkey(l)
@@ -248,7 +300,7 @@ def judge(fam, runs, hist):
             # ---- direct oracle: no undefined behaviour
             if h.startswith("ub") or h.startswith("missing-output"):
                 failed = next((script[j] for j in range(k, -1, -1) if tags[j][0] in ("faulted", "call")), "")
-                fpos = next((tags[j] for j in range(k, -1, -1) if tags[j][0] in ("faulted", "call")), ("", -1, -1))
+                fpos = next((tags[j] for j in range(k, -1, -1) if tags[j][0] in ("faulted", "call")), ("", -1, -1, -1))
                 sig = {"family": fam, "part": "faults", "op": opkey(l), "ub": h, "after": opkey(failed) if failed else "-"}
                 key = json.dumps(sig, sort_keys=True)
                 if key not in violations:
@@ -270,9 +322,8 @@ def judge(fam, runs, hist):
                                             "and arguments?): " + h[:200], "model": m[:200]})
             # ---- partial update (C14's subject): observation after a thrown call differs from the one before
             if kind == "status":
-                j = order.index((ci, pos)) if (ci, pos) in blocks else -1
-                before = blocks.get(order[j - 1]) if j > 0 else None
-                after = blocks.get((ci, pos))
+                before = blocks.get(bid)          # the block before the armed call
+                after = blocks.get(bid + 1)       # the block right after fault.status
                 if before is not None and after is not None and before != after and not desync:
                     desync = True
                     hist["partial_updates"] += 1
@@ -305,13 +356,13 @@ def minimal_replay(script, tags, k):
     ci, pos = tags[k][1], tags[k][2]
     out = []
     for j in range(k):
-        kind, cj, pj = tags[j]
+        kind, cj, pj, _ = tags[j]
         if kind == "prefix":
             out.append(script[j])
         elif kind == "call" and cj < ci:
             out.append(script[j])
-        elif cj == ci and kind in ("arm", "faulted", "status", "call"):
-            if kind == "call" or pj == pos or (tags[k][0] != "obs" and pj <= pos):
+        elif cj == ci and kind in ("arm", "faulted", "status", "call", "probe"):
+            if kind == "call" or pj == pos:
                 out.append(script[j])
     cand = out + [script[k]]
     try:
@@ -325,13 +376,13 @@ def minimal_replay(script, tags, k):
 
 def tie(ctx):
     rng = random.Random(ctx.seed * 7919 + 1507)
-    hist = {"outcome_faulted": {}, "outcome_call": {}, "fault_positions_per_op": {}, "positions_per_call": {},
+    hist = {"outcome_faulted": {}, "outcome_call": {}, "outcome_probe": {}, "fault_positions_per_op": {}, "positions_per_call": {},
             "partial_updates": 0, "partial_update_examples": [], "schemas": {}, "calls": 0, "fault_experiments": 0}
     divergences, violations = [], []
     plans = []
     for fam, F in FAMILIES.items():
         thorough = ctx.tier == "thorough"
-        schemas = K.rotate(F["schemas"], ctx.seed + (3 if fam == "v1" else 0), len(F["schemas"]) if thorough else 2)
+        schemas = K.rotate(F["schemas"], ctx.seed + (3 if fam == "v1" else 0), len(F["schemas"]) if thorough else 3)
         for si, s in enumerate(schemas):
             calls = fixed_calls(fam) + random_calls(fam, rng, si + 1, 30 if thorough else 12)
             plans.append((fam, s, calls))
@@ -359,7 +410,7 @@ def tie(ctx):
             hist["positions_per_call"][str(n)] = hist["positions_per_call"].get(str(n), 0) + 1
         hist["calls"] += len(calls)
         hist["fault_experiments"] += sum(counts)
-        script2, tags = pass2_script(fam, s, calls, counts, 1)
+        script2, tags = pass2_script(fam, s, calls, counts, outcomes)
         scripts2.append((fam, script2, tags, outcomes))
     # ---- pass 2: every position of every call, on the harness and on the model
     hres = runner.run_harness([x[1] for x in scripts2], watchdog=20, stateless=False)
